@@ -518,6 +518,7 @@ RECIPES = {
         "level": "exploration",
         "batches": c06_batches,
         "oracles": ["C06."],
+        "extra_oracles": ["history"],
         "rule": "one run = W in 1..64 simulated tasks (real pthreads, exactly one runnable at a time) evaluating seeded lists of gates / bootstrappings on "
                 "shared inputs with one shared cloud key into private outputs, under a seeded schedule (random walk with p in {1%,10%,30%,100%} or "
                 "PCT priorities, random subset of 14 yield-site classes: FFT transform windows, decomposition, external product, CMux, modulus "
